@@ -19,6 +19,7 @@ META = {
     "assumptions": ["writer.tell() contract: opaque increasing cookie of the next write (DESIGN 3.2)",
                     "pickle.dump stores the object under the handle's path"],
 }
+META["explanation"] += '  idx-any-tags/*: reference segments with arbitrary BO/NO (inside bubbles, untagged); the index is judged against the sn tags the output carries.'
 
 
 def harnesses(tier):
@@ -32,6 +33,10 @@ def harnesses(tier):
     for m in menus:
         hs.append({"id": "idx/" + "+".join(m), "params": {"kind": "sort", "paths": m},
                    "timeout": 300 if len(m) < 3 else 600, "twin": m == [">s1", ">x1"]})
+    # reference segments inside bubbles (SR 0 but NO != 0) and untagged reference segments: the contig of a record is that of its
+    # first rank-0 node whatever its BO/NO
+    for m in ([">s1"], [">s1", ">t1"], [">s1>x1", "<s2"], [">t1", ">s1", ">t1"]):
+        hs.append({"id": "idx-any-tags/" + "+".join(m), "params": {"kind": "sort", "paths": m, "scaffold_ref": False}, "timeout": 600})
     hs.append({"id": "idxgz/>s1+>x1", "params": {"kind": "sort", "paths": [">s1", ">x1"], "gz_out": True}, "timeout": 300})
     hs.append({"id": "runsort/default-path", "params": {"kind": "runsort"}, "timeout": 120})
     return hs
